@@ -14,7 +14,7 @@ def classify(s, case, missing, extra, dups):
     if extra or dups:
         return 'extra/duplicate'
     tri_mono_oblique = s.crystal_system in ('triclinic', 'monoclinic') and HC.oblique(case)
-    if missing and (tri_mono_oblique or s.cell_choice == 'rhombohedral'):
+    if missing and (tri_mono_oblique or (s.cell_choice == 'rhombohedral' and (s.Laue == '-3m' or case['cell'][3] > 90.0))):
         return 'F6'
     return 'missing'
 
@@ -25,7 +25,21 @@ def search(ctx):
     seen = set()
     state = np.random.get_state()
     try:
-        for k, (no, ch, s, case) in enumerate(HC.search_cases(ctx)):
+        cases = HC.search_cases(ctx)
+        if ctx.broken:
+            # directed: shells that reach low-order axial reflections (00l, h00, 0k0 up to order 6) for every setting
+            from xfab import sg as _sg
+            for no in range(1, 231):
+                for ch in ('standard', 'rhombohedral'):
+                    s_ = _sg.sg(sgno=no, cell_choice=ch)
+                    if ch == 'rhombohedral' and s_.cell_choice != 'rhombohedral':
+                        continue
+                    case = HC.make_case(ctx.rng, s_)
+                    K = case['K']
+                    case['M'] = max(case['M'], 36 * max(K[0][0], K[1][1], K[2][2]) if max(K[0][0], K[1][1], K[2][2]) <= 6 else 16 * max(K[0][0], K[1][1], K[2][2]))
+                    case['hi'] = 0.5 * math.sqrt((case['M'] + 0.5) / case['S'])
+                    cases.append((no, ch, s_, case))
+        for k, (no, ch, s, case) in enumerate(cases):
             mod = tools if k % 2 == 0 else laue
             np.random.seed(ctx.rng.randrange(2 ** 31))
             exp = HR.expected_all(s, case['cell'], case['lo'], case['hi'])
